@@ -118,11 +118,11 @@ PROPS = {
         'not_covered': ['launch_tool / cldb argument plumbing', 'py and wasm wrappers', 'the classic (no sigil) branch', 'determinism of compile_file (C05)', 'byte equality of real outputs: bounded stand-in only (E3: 3 programs x cl21/22/23 x optimize on/off)'],
     },
     'C16': {
-        'units': ['evalbind'],
+        'units': ['evalbind', 'argcaptures'],
         'e3_always': ['repl'],
         'e3': ['repl'],
-        'decided': 'the evaluator\'s destructuring of binding patterns (compute_paths_of_destructure, used for let / assign patterns by the REPL, the partial evaluator and the cl22 frontend optimiser): every name is bound to the f/r chain that follows the consensus path of its position in the pattern (least significant bit first), for patterns of any shape',
-        'not_covered': ['create_argument_captures / build_argument_captures (function-call argument binding; HashMap- and BodyForm-heavy)', 'substitution, folding and lambda application in shrink_bodyform_visited', 'REPL state', 'agreement REPL vs compiled program as a whole: bounded stand-in only (E3: 10 sessions)'],
+        'decided': 'the evaluator\'s destructuring of binding patterns (compute_paths_of_destructure, used for let / assign patterns by the REPL, the partial evaluator and the cl22 frontend optimiser): every name is bound to the f/r chain that follows the consensus path of its position in the pattern (least significant bit first), for patterns of any shape; the evaluator\'s function-call argument binding create_argument_captures: afterwards every parameter the spec mentions has a capture expression whose value (under any valuation of the free variables; projections by opcode 5 / 6 / 4) is what the spec binds that name to in the arguments -- structurally for Pair arguments, by value for Whole ones -- and whenever the arguments as a whole have a value this is the destructuring spec binds the code generator is proved against (first occurrence wins, an (@ name sub) capture is the whole position): lemmas binds_a_strict, binds_o_is_binds; get_bodyform_from_arginput, make_operator1 / make_operator2',
+        'not_covered': ['build_argument_captures and the callers of create_argument_captures', 'operator_head (contract ASSUMED: string match)', 'the capture table as a HashMap (stand-in keyed by content, R47)', 'substitution, folding and lambda application in shrink_bodyform_visited', 'REPL state', 'agreement REPL vs compiled program as a whole: bounded stand-in only (E3: 16 closed and 10 open sessions)'],
     },
     'C10': {
         'units': ['guards'],
